@@ -1141,7 +1141,7 @@ impl<'a> Elab<'a> {
             }
         }
         // dropcall (e.g. `.into()` wrapper conversion, A10)
-        if m.args.is_empty() && self.u.dropcall.contains(&method) {
+        if m.args.is_empty() && (self.u.dropcall.contains(&method) || self.spec.dropcalls.contains(&method)) {
             return self.fold_expr(*m.receiver);
         }
         // upgrade outside the `if let` pattern
